@@ -3,13 +3,24 @@
 ** positions from the read-only hook (and public SEEK_CUR where the handle is seekable).
 */
 #include "vh.h"
+#include "foreign.h"
 
+static void check_reads_m (MEMF m, const char *fn, int format, int ch, int rate, int t, int framewise) ;
 static void check_reads (int format, int ch, int rate, int t, int framewise)
-{	MEMF m ; SNDFILE *s ; SF_INFO ri ; const char *fn = vh_fname (format) ; int ts = vh_tsize [t], B = vh_block (format, ch, rate), i, j ;
-	long N = B > 1 ? 3 * B + B / 2 + 3 : 9001, F, got ;	/* longer than the largest staging buffer (8192 items) */ char *ref ; int KB = ((format & SF_FORMAT_SUBMASK) >= SF_FORMAT_ALAC_16 && (format & SF_FORMAT_SUBMASK) <= SF_FORMAT_ALAC_32) ? 4096 : B ;	/* packet length for the key classes */
+{	MEMF m ; const char *fn = vh_fname (format) ; int B = vh_block (format, ch, rate) ;
+	long N = B > 1 ? 3 * B + B / 2 + 3 : 9001 ;	/* longer than the largest staging buffer (8192 items) */
 	if (N < 3000) N = 3000 + B / 2 + 3 ;		/* long enough for requests beyond the staging buffers even when the codec block is small (PAF 24: 10 frames) */
 	if (N * ch > 60000) N = 60000 / ch + 1 ;
 	if (vh_make_file (&m, format, ch, rate, N, 1 + ((t + framewise) & 1)) != 0) { vh_statf (1, "cannot_write:%s", fn) ; mv_free (&m) ; return ; }	/* two-tone or position-addressable noise */
+	check_reads_m (m, fn, format, ch, rate, t, framewise) ;
+}
+/* the read contract on any file image (owns and frees it); format 0: a file the library did not write, what it is follows from opening it */
+static void check_reads_m (MEMF m, const char *fn, int format, int ch, int rate, int t, int framewise)
+{	SNDFILE *s ; SF_INFO ri ; int ts = vh_tsize [t], B, i, j, KB ; long F, got ; char *ref ;
+	if (format == 0)
+	{	s = vh_open_r (&m, 0, 0, 0, &ri) ; if (s == NULL) { vh_stat ("foreign_files_refused", 1) ; mv_free (&m) ; return ; }
+		format = ri.format ; ch = ri.channels ; rate = ri.samplerate ; sf_close (s) ; if (ch < 1 || ch > 8) { mv_free (&m) ; return ; } }
+	B = vh_block (format, ch, rate) ; KB = ((format & SF_FORMAT_SUBMASK) >= SF_FORMAT_ALAC_16 && (format & SF_FORMAT_SUBMASK) <= SF_FORMAT_ALAC_32) ? 4096 : B ;	/* packet length for the key classes */
 	s = vh_open_r (&m, format, ch, rate, &ri) ;
 	if (s == NULL) { vh_viol (vh_key ("C05|reopen-failed|%s", fn), "%s", sf_strerror (NULL)) ; mv_free (&m) ; return ; }
 	F = (long) ri.frames ; if (F < 0 || F > 2000000) { vh_viol (vh_key ("C05|frames-insane|%s", fn), "F=%ld", F) ; sf_close (s) ; mv_free (&m) ; return ; }
@@ -155,6 +166,14 @@ int main (int argc, char **argv)
 			if (vh_case ("%s ch=%d %s %s writes", vh_fname (format), chs [c], vh_tname [t], v ? "frames" : "items"))
 				check_writes (format, chs [c], 8000, t, v) ;
 			}
+		}
+	/* files as other programs write them (harness/foreign.h): the read contract needs no model of the file beyond its own sequential read */
+	for (f = 0 ; f < foreign_count () ; f++) for (t = 0 ; t < T_N ; t++) for (v = 0 ; v < 2 ; v++)
+	{	unsigned char *b = NULL ; long n = 0 ; const char *nm = foreign_make (f, &b, &n) ; MEMF m ; char fnb [96] ;
+		if (!vh_case ("foreign file %s %s %s reads", nm, vh_tname [t], v ? "frames" : "items")) { free (b) ; continue ; }
+		vh_stat ("foreign_file_read_cases", 1) ; if (t == 0 && v == 0) vh_sample ("foreign file %s (%ld bytes): reads at 6 positions x ~16 request sizes in 4 types against its own sequential read", nm, n) ;
+		memset (&m, 0, sizeof (m)) ; m.d = b ; m.len = n ; m.cap = n ; snprintf (fnb, sizeof (fnb), "foreign:%s", nm) ;
+		check_reads_m (m, fnb, 0, 0, 0, t, v) ;
 		}
 	return vh_finish () ;
 }
